@@ -239,6 +239,9 @@ func expandFP2(cut FP, direct bool) FP {
 // passThroughCut: a return that hands on the result of a helper is a success / true return only if the helper's
 // outcome is; if that outcome implies a fact the active cut accepts, the return is behind the cut.
 func passThroughCut(v ssa.Value, outcome string, guard FP) bool {
+	if staticCount {
+		return false
+	}
 	g := guard
 	if g == nil {
 		g = activeBase
@@ -283,9 +286,6 @@ func cutThroughHelper(sp CutSpec) (string, bool) {
 	for _, b := range fn.Blocks {
 		for _, in := range b.Instrs {
 			if sp.Target(in, idRes) {
-				if _, ok := in.(*ssa.Return); !ok {
-					return "", false
-				}
 				nt++
 			}
 		}
@@ -307,58 +307,65 @@ func cutThroughHelper(sp CutSpec) (string, bool) {
 			if idx < 0 {
 				continue
 			}
-			// (a) inside the helper
-			saved, savedV := exprParamSubst, valueParamSubst
-			next, nextV := map[*ssa.Parameter]string{}, map[*ssa.Parameter]ssa.Value{}
-			for i, p := range h.Params {
-				if i < len(cl.Call.Args) {
-					next[p] = Expr(cl.Call.Args[i])
-					nextV[p] = cl.Call.Args[i]
+			// a bool helper may report acceptance (isValid) or refusal (hasInvalid): both readings are tried
+			outcomes := []string{outcome}
+			if outcome == "true" {
+				outcomes = append(outcomes, "false")
+			}
+			for _, oc := range outcomes {
+				if cutThroughHelperAt(sp, cl, h, idx, oc) {
+					return short(FuncName(h)), true
 				}
 			}
-			exprParamSubst, valueParamSubst = next, nextV
-			sp2 := sp
-			sp2.Fn = h
-			sp2.StartAfter, sp2.StartEdges, sp2.Track = nil, nil, nil
-			if outcome == "nil" {
-				sp2.Target = SuccessReturn(idx, nil)
-			} else {
-				sp2.Target = TrueReturn(idx, nil)
-			}
-			r2 := RunCut(&sp2)
-			exprParamSubst, valueParamSubst = saved, savedV
-			min := sp.MinTargets
-			if min <= 0 {
-				min = 1
-			}
-			if r2.Capped || r2.Violated || r2.Targets < min || (sp.Start != nil && r2.Starts == 0) {
-				continue
-			}
-			// (b) in the function: its targets lie behind the helper's acceptance
-			var res ssa.Value = cl
-			if h.Signature.Results().Len() > 1 {
-				res = nil
-				for _, r := range *cl.Referrers() {
-					if ex, ok := r.(*ssa.Extract); ok && ex.Index == idx {
-						res = ex
-					}
-				}
-			}
-			if res == nil {
-				continue
-			}
-			want := res
-			sp3 := CutSpec{Fn: fn, Target: sp.Target, MinTargets: sp.MinTargets, Cut: func(f Fact) bool {
-				return f.Op == outcome && f.Y == nil && (f.X == want || stripConv(f.X) == want)
-			}}
-			r3 := RunCut(&sp3)
-			if r3.Capped || r3.Violated || r3.Targets == 0 {
-				continue
-			}
-			return short(FuncName(h)), true
 		}
 	}
 	return "", false
+}
+
+func cutThroughHelperAt(sp CutSpec, cl *ssa.Call, h *ssa.Function, idx int, outcome string) bool {
+	fn := sp.Fn
+	// (a) inside the helper
+	saved, savedV := exprParamSubst, valueParamSubst
+	next, nextV := map[*ssa.Parameter]string{}, map[*ssa.Parameter]ssa.Value{}
+	for i, p := range h.Params {
+		if i < len(cl.Call.Args) {
+			next[p] = Expr(cl.Call.Args[i])
+			nextV[p] = cl.Call.Args[i]
+		}
+	}
+	exprParamSubst, valueParamSubst = next, nextV
+	sp2 := sp
+	sp2.Fn = h
+	sp2.StartAfter, sp2.StartEdges, sp2.Track = nil, nil, nil
+	sp2.Target = acceptTarget(idx, outcome)
+	r2 := RunCut(&sp2)
+	exprParamSubst, valueParamSubst = saved, savedV
+	min := sp.MinTargets
+	if min <= 0 {
+		min = 1
+	}
+	if r2.Capped || r2.Violated || r2.Targets < min || (sp.Start != nil && r2.Starts == 0) {
+		return false
+	}
+	// (b) in the function: its targets lie behind the helper's acceptance
+	var res ssa.Value = cl
+	if h.Signature.Results().Len() > 1 {
+		res = nil
+		for _, r := range *cl.Referrers() {
+			if ex, ok := r.(*ssa.Extract); ok && ex.Index == idx {
+				res = ex
+			}
+		}
+	}
+	if res == nil {
+		return false
+	}
+	want := res
+	sp3 := CutSpec{Fn: fn, Target: sp.Target, MinTargets: sp.MinTargets, Cut: func(f Fact) bool {
+		return f.Op == outcome && f.Y == nil && (f.X == want || stripConv(f.X) == want)
+	}}
+	r3 := RunCut(&sp3)
+	return !r3.Capped && !r3.Violated && r3.Targets > 0
 }
 
 // provWrite: a store into a field of an object built by fn, made by fn itself or by a helper fn hands the object to;
@@ -560,82 +567,191 @@ func (c *Ctx) rejectsThroughHelper(fn *ssa.Function, succ func(*ssa.Function) fu
 		if len(cs) != 1 {
 			continue
 		}
-		cl := cs[0]
-		okA := false
-		w.inCallerContext(h, func() {
-			var edges []EdgeRef
-			for _, b := range h.Blocks {
-				ifi, ok := b.Instrs[len(b.Instrs)-1].(*ssa.If)
-				if !ok {
-					continue
-				}
-				for si := 0; si < 2; si++ {
-					if !anyFact(condFacts(ifi.Cond, si == 0, idRes), conj[len(conj)-1]) {
-						continue
-					}
-					// the other conjuncts may hold in the helper or already at the call
-					dom := append(domFacts(b), domFacts(cl.Block())...)
-					all := true
-					for _, p := range conj[:len(conj)-1] {
-						if !anyFact(dom, p) {
-							all = false
-						}
-					}
-					if all {
-						edges = append(edges, EdgeRef{B: b, Succ: si, Known: domFacts(b)})
-					}
-				}
-			}
-			if len(edges) == 0 {
-				return
-			}
-			tgt := SuccessReturn(idx, nil)
-			if outcome == "true" {
-				tgt = TrueReturn(idx, nil)
-			}
-			r := RunCut(&CutSpec{Fn: h, StartEdges: edges, Target: tgt})
-			okA = !r.Capped && !r.Violated
-		})
-		if !okA {
-			continue
-		}
-		// (b) the refusal edges in fn
-		var res ssa.Value = cl
-		if h.Signature.Results().Len() > 1 {
-			res = nil
-			for _, r := range *cl.Referrers() {
-				if ex, ok := r.(*ssa.Extract); ok && ex.Index == idx {
-					res = ex
-				}
-			}
-		}
-		if res == nil {
-			continue
-		}
-		refused := "nonnil"
+		// a bool helper may report acceptance (isValid) or refusal (hasInvalid): both readings are tried
+		accepts := []string{outcome}
 		if outcome == "true" {
-			refused = "false"
+			accepts = append(accepts, "false")
+		}
+		for _, acc := range accepts {
+			if c.rejectsVia(fn, h, cs[0], idx, acc, succ, conj) {
+				return short(FuncName(h)), true
+			}
+		}
+	}
+	return "", false
+}
+
+// rejectsVia: (a) inside helper h, wherever the rejecting condition is established the helper cannot report acceptance
+// (acc: "nil", "true" or "false" on result idx); (b) in fn, the edges on which the helper's result is a refusal never
+// reach a success target.
+func (c *Ctx) rejectsVia(fn, h *ssa.Function, cl *ssa.Call, idx int, acc string, succ func(*ssa.Function) func(ssa.Instruction, resolver) bool, conj []FP) bool {
+	w := c.W
+	okA := false
+	w.inCallerContext(h, func() {
+		others := func(b *ssa.BasicBlock) bool {
+			// the other conjuncts may hold in the helper or already at the call
+			dom := append(domFacts(b), domFacts(cl.Block())...)
+			for _, p := range conj[:len(conj)-1] {
+				if !anyFact(dom, p) {
+					return false
+				}
+			}
+			return true
 		}
 		var edges []EdgeRef
-		for _, b := range fn.Blocks {
+		for _, b := range h.Blocks {
 			ifi, ok := b.Instrs[len(b.Instrs)-1].(*ssa.If)
 			if !ok {
 				continue
 			}
 			for si := 0; si < 2; si++ {
-				if anyFact(condFacts(ifi.Cond, si == 0, idRes), func(f Fact) bool { return f.Op == refused && f.Y == nil && stripConv(f.X) == res }) {
+				if anyFact(condFacts(ifi.Cond, si == 0, idRes), conj[len(conj)-1]) && others(b) {
 					edges = append(edges, EdgeRef{B: b, Succ: si, Known: domFacts(b)})
 				}
 			}
 		}
+		// the helper may return the value of the test itself (`return a || b`): the result is a refusal exactly when
+		// the condition holds
+		returned := false
+		if acc != "nil" {
+			for _, b := range h.Blocks {
+				rt, ok := b.Instrs[len(b.Instrs)-1].(*ssa.Return)
+				if !ok || idx >= len(rt.Results) {
+					continue
+				}
+				v := unspill(rt, idx)
+				type src struct {
+					v ssa.Value
+					b *ssa.BasicBlock
+				}
+				var srcs []src
+				var expand func(v ssa.Value, b *ssa.BasicBlock, d int)
+				expand = func(v ssa.Value, b *ssa.BasicBlock, d int) {
+					if phi, ok := v.(*ssa.Phi); ok && d < 5 { // `a || b && c` nests the phis
+						for i, e := range phi.Edges {
+							expand(e, phi.Block().Preds[i], d+1)
+						}
+						return
+					}
+					srcs = append(srcs, src{v, b})
+				}
+				expand(v, b, 0)
+				for _, s := range srcs {
+					if _, isC := s.v.(*ssa.Const); isC {
+						continue
+					}
+					// the condition holds <=> the value is the refusal outcome
+					if anyFact(condFacts(s.v, acc == "false", idRes), conj[len(conj)-1]) && others(s.b) {
+						returned = true
+					}
+				}
+			}
+		}
 		if len(edges) == 0 {
-			continue
+			okA = returned
+			return
 		}
-		r := RunCut(&CutSpec{Fn: fn, StartEdges: edges, Target: succ(fn)})
-		if r.Capped || r.Violated {
-			continue
-		}
-		return short(FuncName(h)), true
+		r := RunCut(&CutSpec{Fn: h, StartEdges: edges, Target: acceptTarget(idx, acc)})
+		okA = !r.Capped && !r.Violated
+	})
+	if !okA {
+		return false
 	}
-	return "", false
+	return refusedNeverSucceeds(fn, h, cl, idx, acc, succ(fn))
+}
+
+// acceptTarget: the returns of a helper that report the outcome acc on result idx.
+func acceptTarget(idx int, acc string) func(ssa.Instruction, resolver) bool {
+	switch acc {
+	case "nil":
+		return SuccessReturn(idx, nil)
+	case "true":
+		return TrueReturn(idx, nil)
+	}
+	return FalseReturn(idx)
+}
+
+// helperPolarity: which outcome of helper h (called at cl in fn) fn treats as acceptance: the one whose opposite
+// never reaches a success target of fn. "" if neither reading holds.
+func helperPolarity(fn, h *ssa.Function, cl *ssa.Call, succ func(ssa.Instruction, resolver) bool) (int, string) {
+	idx, outcome := okOutcome(h)
+	if idx < 0 {
+		return -1, ""
+	}
+	accepts := []string{outcome}
+	if outcome == "true" {
+		accepts = append(accepts, "false")
+	}
+	for _, acc := range accepts {
+		if refusedNeverSucceeds(fn, h, cl, idx, acc, succ) {
+			return idx, acc
+		}
+	}
+	return -1, ""
+}
+
+// refusedNeverSucceeds: in fn, the edges on which the result idx of the call cl to helper h is not the outcome acc exist
+// and never reach a success target.
+func refusedNeverSucceeds(fn, h *ssa.Function, cl *ssa.Call, idx int, acc string, succ func(ssa.Instruction, resolver) bool) bool {
+	var res ssa.Value = cl
+	if h.Signature.Results().Len() > 1 {
+		res = nil
+		for _, r := range *cl.Referrers() {
+			if ex, ok := r.(*ssa.Extract); ok && ex.Index == idx {
+				res = ex
+			}
+		}
+	}
+	if res == nil {
+		return false
+	}
+	refused := map[string]string{"nil": "nonnil", "true": "false", "false": "true"}[acc]
+	var edges []EdgeRef
+	for _, b := range fn.Blocks {
+		ifi, ok := b.Instrs[len(b.Instrs)-1].(*ssa.If)
+		if !ok {
+			continue
+		}
+		for si := 0; si < 2; si++ {
+			if anyFact(condFacts(ifi.Cond, si == 0, idRes), func(f Fact) bool { return f.Op == refused && f.Y == nil && stripConv(f.X) == res }) {
+				edges = append(edges, EdgeRef{B: b, Succ: si, Known: domFacts(b)})
+			}
+		}
+	}
+	if len(edges) == 0 {
+		return false
+	}
+	r := RunCut(&CutSpec{Fn: fn, StartEdges: edges, Target: succ})
+	return !r.Capped && !r.Violated
+}
+
+// withHelperContexts runs body on fn and, one level down, on every in-module helper fn calls directly; while a helper is
+// visited its parameters stand for (and render as) the arguments of that call.
+func withHelperContexts(fn *ssa.Function, body func(h *ssa.Function, cl *ssa.Call)) {
+	body(fn, nil)
+	seen := map[*ssa.Call]bool{}
+	for _, b := range fn.Blocks {
+		for _, in := range b.Instrs {
+			cl, ok := in.(*ssa.Call)
+			if !ok || seen[cl] {
+				continue
+			}
+			seen[cl] = true
+			h := cl.Call.StaticCallee()
+			if h == nil || !InModule(h) || len(h.Blocks) == 0 || h == fn {
+				continue
+			}
+			saved, savedV := exprParamSubst, valueParamSubst
+			next, nextV := map[*ssa.Parameter]string{}, map[*ssa.Parameter]ssa.Value{}
+			for i, p := range h.Params {
+				if i < len(cl.Call.Args) {
+					next[p] = Expr(cl.Call.Args[i])
+					nextV[p] = cl.Call.Args[i]
+				}
+			}
+			exprParamSubst, valueParamSubst = next, nextV
+			body(h, cl)
+			exprParamSubst, valueParamSubst = saved, savedV
+		}
+	}
 }
